@@ -22,6 +22,9 @@ symbols to a unit:
  R4  one case folding: every name ``used_names_from_symbol`` returns passes through
      its ``modifier`` (default ``str.lower``), recursion hands the modifier on, and
      ``eliminate_unused_imports`` looks imported names up folded the same way.
+ R5  a whole import is removed only when its *own* symbol list ran empty: the
+     ``imprt_map[im] = None`` of ``eliminate_unused_imports`` lies on a path where
+     ``im.symbols`` was non-empty (a blanket ``USE mod`` has ``()``, not ``None``).
  R3  accumulate, then consume: in ``extract_internal_procedure`` the list of host
      variables that become dummies of the extracted routine is final before the
      kinds / derived types / imports needed by those dummies are derived from
@@ -339,6 +342,25 @@ def run_r23(ctx):
          ctx.violation('R4', 'eliminate_unused_imports:lookup-not-folded', f'{U}:{t_.lineno}',
                        f'`{ast.unparse(t_)}` looks the imported name up without `.{default_fold}()` in a set whose members are folded with '
                        f'str.{default_fold}: an import spelled with other case is removed although it is used'))
+    # ---- R5: an import is removed only because its own symbol list became empty
+    ctx.rule('R5', 'eliminate_unused_imports: an Import is mapped to None only on a path where it had symbols (a blanket USE has none and stays)')
+    n5 = 0
+    for a_, guards in X.nodes_with_guards(el.node, lambda x: isinstance(x, ast.Assign) and isinstance(x.targets[0], ast.Subscript)
+                                          and isinstance(x.value, ast.Constant) and x.value.value is None, early=True):
+        n5 += 1
+        key = ast.unparse(a_.targets[0].slice)
+        gs = [g.replace(' ', '') for g in guards]
+        had = any(g in (f'{key}.symbols', f'len({key}.symbols)>0', f'{key}.symbols!=()', f'bool({key}.symbols)') or
+                  g.startswith(f'{key}.symbols and') or g.endswith(f'and{key}.symbols') for g in gs)
+        inst = f'eliminate_unused_imports:{ast.unparse(a_)}'
+        if had:
+            ctx.judge('R5', inst, facts={'guards': guards})
+        else:
+            ctx.violation('R5', 'eliminate_unused_imports:blanket-import-removed', f'{U}:{a_.lineno}',
+                          f'`{ast.unparse(a_)}` is reached under [{"; ".join(guards)}]: a `USE mod` without ONLY list has an empty symbol tuple '
+                          f'(not None), so it is removed as soon as any other import loses a symbol -- everything it provides becomes '
+                          f'undeclared', instance=inst)
+    ctx.floor('R5', 'removals of whole imports', n5, 1)
     # callers keep the default folding
     for c_ in ast.walk(f.node):
         if isinstance(c_, ast.Call) and X.call_name_of(c_) == un.name:
@@ -348,6 +370,8 @@ def run_r23(ctx):
                            f'`{ast.unparse(c_)}` builds the use set with another folding than the one eliminate_unused_imports compares with'))
 
 MUTANTS = [
+    Mutant('blanket-import-removed', 'loki/transformations/utilities.py', "            if im.symbols:\n", "            if im.symbols is not None:\n",
+           expect=('R5', 'blanket-import-removed')),
     Mutant('kind-name-not-folded', 'loki/transformations/utilities.py', "            return {modifier(str(symbol.kind))}", "            return {str(symbol.kind)}",
            expect=('R4', 'name-not-folded')),
     Mutant('type-name-not-folded', 'loki/transformations/utilities.py', "        return OrderedSet([modifier(symbol.name)])\n\n    return OrderedSet()",
